@@ -143,6 +143,30 @@ let () =
        end else begin
          incr lineno;
          let toks = List.filter (fun t -> t <> "") (String.split_on_char ' ' line) in
+         let trk = ref None in
+         (match toks with
+          | ("@StatusGC" | "StatusGC") :: pm :: rest ->
+              (* @StatusGC pm V .. E .. F .. C .. TV .. THE .. THF .. TC ..  (absolute operands) *)
+              let cur = ref "" and tbl = Hashtbl.create 8 in
+              List.iter (fun t -> if t = "V" || t = "E" || t = "F" || t = "C" || t = "TV" || t = "THE" || t = "THF" || t = "TC"
+                                  then (cur := t; Hashtbl.replace tbl t [])
+                                  else Hashtbl.replace tbl !cur ((try Hashtbl.find tbl !cur with Not_found -> []) @ [int_of_string t])) rest;
+              let g k = List.map nat_of_int (try Hashtbl.find tbl k with Not_found -> []) in
+              let s = !st in
+              let nvv = int_of_nat s.nv and nee = List.length s.edges and nff = List.length s.faces and ncc = List.length s.cells in
+              let inr n l = List.for_all (fun x -> int_of_nat x < n) l in
+              let ok = inr nvv (g "V") && inr nee (g "E") && inr nff (g "F") && inr ncc (g "C")
+                       && inr nvv (g "TV") && inr (2 * nee) (g "THE") && inr (2 * nff) (g "THF") && inr ncc (g "TC") in
+              let echo = String.concat " " ("StatusGC" :: pm :: rest) in
+              if not ok then pr "== %d %s -> Rejected\n" !lineno echo
+              else begin
+                let (s', (((a, b), c), d)) = status_gc (pm = "1") (g "V") (g "E") (g "F") (g "C") (g "TV") (g "THE") (g "THF") (g "TC") s in
+                st := s';
+                pr "== %d %s -> Ok -\n" !lineno echo;
+                let f l = String.concat " " (List.map (function None -> "-" | Some x -> string_of_int (int_of_nat x)) l) in
+                trk := Some (Printf.sprintf "TRK v:%s | he:%s | hf:%s | c:%s" (f a) (f b) (f c) (f d))
+              end
+          | _ ->
          (match (try Some (parse_op !st toks) with Unresolvable -> None) with
           | None -> pr "== %d %s -> Unresolvable\n" !lineno line
           | Some (o, echo) ->
@@ -151,8 +175,9 @@ let () =
                | Ok (s', r) ->
                    st := s';
                    pr "== %d %s -> Ok %s\n" !lineno echo
-                     (match r with None -> "-" | Some h -> string_of_int (int_of_nat h))));
+                     (match r with None -> "-" | Some h -> string_of_int (int_of_nat h)))));
          dump !st;
+         (match !trk with Some t -> pr "%s\n" t | None -> ());
          (* decidable invariants of Kernel/InvB.v on the state just reached (model side only; diverted by lib/lockstep.py) *)
          if not interactive && not !no_inv then begin
            let v = valid_b !st in
